@@ -492,9 +492,32 @@ def assemble_unit(unit_name, unit_dir, cfg, extracted, prelude_files, canary=Fal
     for s_ in secs:
         if s_.kind == "raw":
             s_.used = True
+            # a `//# NAME` comment directly above a top-level `pub proof fn X(` names X as an obligation (kind lemma):
+            # every line of X up to its closing `}` carries the obligation id
+            pend_name, cur = None, None
             for t, ln in s_.lines:
+                o = {"k": "raw", "ofile": os.path.relpath(s_.path, VERIF), "oline": ln}
+                st = t.strip()
+                if st.startswith("//#") and not t.startswith((" ", "\t")):
+                    pend_name = st[3:].strip()
+                elif pend_name and not t.startswith((" ", "\t")):
+                    m_ = re.match(r"pub proof fn (\w+)", st)
+                    if m_:
+                        cur = (m_.group(1), pend_name)
+                        o["lemma_first"] = True
+                        A.functions.setdefault(cur[0], {"item": "@raw", "file": o["ofile"], "span": [ln, ln], "sha256": "", "rules": [], "lemma": True})
+                    pend_name = None
+                if cur:
+                    o["fn"], o["lemma"] = cur
+                    if t.rstrip() == "}":
+                        if canary:
+                            canary_n[0] += 1
+                            A.lines.append(f"    assert(!vx_canary({canary_n[0]})); // CANARY {cur[0]}:lemma_end")
+                            A.origin.append({"k": "canary", "fn": cur[0], "id": f"{cur[0]}:lemma_end"})
+                        A.functions[cur[0]]["span"][1] = ln
+                        cur = None
                 A.lines.append(t)
-                A.origin.append({"k": "raw", "ofile": os.path.relpath(s_.path, VERIF), "oline": ln})
+                A.origin.append(o)
     for s_ in secs:
         if not s_.used and not getattr(s_, "optional", False):
             raise Undecided("anchor-lost", f"overlay section @{s_.kind} {' '.join(s_.args)} ({os.path.relpath(s_.path, VERIF)}:{s_.line_no}) matched nothing")
@@ -516,6 +539,11 @@ def assemble_unit(unit_name, unit_dir, cfg, extracted, prelude_files, canary=Fal
             seen.add(oid)
             o["oid"] = oid
             A.obligations.append({"id": oid, "fn": o["fn"], "kind": o["kw"], "line": ln, "weight": 2 if o["kw"].startswith("invariant") else 1})
+    for ln, o in enumerate(A.origin, 1):
+        if o.get("k") == "raw" and o.get("lemma"):
+            o["oid"] = f"{unit_name}/{o['fn']}/{o['lemma']}"
+            if o.get("lemma_first"):
+                A.obligations.append({"id": o["oid"], "fn": o["fn"], "kind": "lemma", "line": ln, "weight": 1})
     for ln, o in enumerate(A.origin, 1):
         if o.get("k") == "ghost" and o.get("assert_name"):
             oid = f"{unit_name}/{o['fn']}/{o['assert_name']}"
